@@ -236,7 +236,7 @@ def k_dest(name, p, b, d, out, entry):
         return None, 'dest-axis'
     mlon = p[0] + math.degrees(math.atan2(Y, X))
     k = round((mlon - out[0]) / 360)
-    eps = 5.0e-8 + 1e-9 + 1e-13 / h
+    eps = 5.0e-8 + 1e-9 + 1e-13 / h + 3e-14 / math.sqrt(2 * (1 - abs(s2)))      # asin conditioning next to a pole
     if entry == 'deg':
         fn, ang, unf = 'dest_deg', rlit(b), 'unfold dest_deg. '
     else:
@@ -263,8 +263,9 @@ def k_rot(name, o, p, a, out):
 
 
 # ------------------------------------------------------------------ running the K lemmas (own runner; lib.corr is for vm_compute lists)
-def run_lemmas(ck, name, lemmas, per_file, timeout=900):
+def run_lemmas(ck, name, lemmas, per_file, timeout=900, header=None):
     """lemmas: list of (lemma_name, text). Returns (set of failing lemma names, list of broken files)"""
+    hdr = header or K_HEADER
     files = []
     for k in range(0, len(lemmas), per_file):
         part = lemmas[k:k + per_file]
@@ -278,9 +279,9 @@ def run_lemmas(ck, name, lemmas, per_file, timeout=900):
         out = ''
         for attempt in range(6):
             with open(os.path.join(ck.rundir, fn), 'w') as f:
-                f.write(K_HEADER)
+                f.write(hdr)
                 starts = {}
-                line = K_HEADER.count('\n') + 1
+                line = hdr.count('\n') + 1
                 for nm, txt in todo:
                     starts[nm] = line
                     f.write(txt)
@@ -481,7 +482,13 @@ def oracle_dest(p, b, d, obs, stats):
     if dd != dr:
         bad.append(('deg_rad_same', f'degrees entry {dd!r} radians entry {dr!r}'))
     back = haversine_distance_meters(C(p), C(dd))
-    if abs(back - d) > 0.02:
+    # asin loses the colatitude digits next to a pole (d(asin)/dx = 1/cos(lat)): a destination within a few
+    # metres of a pole is off by up to ~10 cm in floats; the 2 cm figure is checked with that allowance
+    colat = math.radians(90 - abs(dd[1]))
+    tol_pos = 0.02 + R_EARTH * 4.5e-16 / max(colat, 1e-9)
+    if colat < math.radians(1e-4):
+        stats['dest-within-11m-of-pole(allowance)'] = stats.get('dest-within-11m-of-pole(allowance)', 0) + 1
+    if abs(back - d) > tol_pos:
         bad.append(('dest_dist', f'requested {d!r} m, destination {dd!r} is at {back!r} m'))
     # independent direct solution on unit vectors (no shared formula with the implementation)
     f1, l1, t, r = math.radians(p[1]), math.radians(p[0]), math.radians(b), d / R_EARTH
@@ -493,7 +500,7 @@ def oracle_dest(p, b, d, obs, stats):
     off, _, _ = great_circle_ref((rl, rf), dd)
     if abs(p[1]) == 90:
         stats['dest-from-pole(no bearing)'] = stats.get('dest-from-pole(no bearing)', 0) + 1
-    elif off > 0.02:
+    elif off > tol_pos:
         bad.append(('dest_position', f'destination {dd!r} is {off!r} m from the point at distance/bearing ({rl!r},{rf!r})'))
     if abs(p[1]) > 89.9 or abs(dd[1]) > 89.9999 or math.sin(r) * R_EARTH < 0.5:
         stats['dest-bearing-illconditioned'] = stats.get('dest-bearing-illconditioned', 0) + 1
